@@ -10,59 +10,170 @@ ASSUMPTIONS = [
     "while a look-ahead snapshot exists (the step only raises the rewind flag) and is refused inside string "
     "evaluation; an unbound external is an error or diverts into the ink fallback, never a panic",
     "tie: engine.compare (external calls are events carrying name, arguments and lines delivered so far)",
-    "oracle on the implementation: generated programs with uniquely numbered external calls in every syntactic "
-    "position x {safe, unsafe, ink fallback, unbound} x explored paths; the host logs each call with the number "
-    "of lines delivered so far",
+    "tie (continued): every bound run of a program with a call inside a string is in the correspondence sample first "
+    "(the model refuses such a call BEFORE it looks at the look-ahead snapshot, whatever the pending output)",
+    "oracle on the implementation: generated programs, call site = callee (arity 0/1/2, direct / through an ink "
+    "function / through an ink function that builds a string) x use of the result (printed, operator, native "
+    "function, condition) x position (incl. string expressions and choice text, with and without a pending line) "
+    "x {safe, unsafe, ink fallback, unbound} x explored paths; the host logs each call with the number of lines "
+    "delivered so far; an unsafe run is compared call by call (program order, exactly once, during the continue "
+    "that delivers the call's own line) and line by line with the ink-fallback run, a call inside a string must be "
+    "refused with an error on the continue of its own line after all earlier lines were delivered unchanged; a "
+    "panic anywhere is a violation",
 ]
 
-SNIPPETS = [
-    ("stmt", lambda k: f"~ v = ext({k})\nGot {{v}}."),
-    ("inline", lambda k: f"Inline {{ext({k})}} here."),
-    ("inline-after-text", lambda k: f"Before.\nThen {{ext({k})}}."),
-    ("cond", lambda k: f"{{ext({k}) > 0: yes{k}|no{k}}} cond."),
-    ("glue", lambda k: f"Glued <>\n{{ext({k})}} on."),
-    ("logic-then-text", lambda k: f"A line.\n~ v = ext({k})\nAfter {{v}}."),
-    ("two-args", lambda k: f"Sum {{ext2({k}, {k + 1})}}."),
-    ("in-function", lambda k: f"Fn {{wrap({k})}}."),
-    ("in-tunnel", lambda k: f"-> tun{k} ->\nBack."),
-]
-STRING_SNIPPETS = [
-    ("string", lambda k: f'~ s = "a{{ext({k})}}b"\nStr {{s}}.'),
-    ("choice-text", lambda k: None),
-]
+# ---------------------------------------------------------------------------------------------
+# program generator: every call site = callee x use of the result x syntactic position
+#   callee   : external of arity 0 / 1 / 2, directly or through an ink function, or through an
+#              ink function that builds a string around the call
+#   use      : result printed / operand of an operator / argument of a native function / condition
+#   position : statement, inline, after a complete line, after glue, in a tunnel, inside a string
+#              expression (global, temp, inline literal; first line or after a pending line),
+#              choice text (bracketed / start content), after a choice
+# Every site carries a unique marker text on the line that shows its value, so the oracle can
+# locate "its" line in the reference (ink fallback) run.
+# ---------------------------------------------------------------------------------------------
+EXT0_VALUE = 7
+HEADER = ["EXTERNAL ext(a)", "EXTERNAL ext2(a, b)", "EXTERNAL ext0()", "VAR v = 0", 'VAR s = ""']
+FOOTER = ["=== function wrap(a) ===", "~ return ext(a) + 1",
+          "=== function wrap0() ===", "~ return ext0() + 1",
+          "=== function mkstr(a) ===", '~ return "m{ext(a) + 1}"',
+          "=== function mkstr0() ===", '~ return "m{ext0() + 1}"',
+          "=== function ext(a) ===", "~ return a",
+          "=== function ext2(a, b) ===", "~ return a",
+          "=== function ext0() ===", f"~ return {EXT0_VALUE}"]
+
+# name -> (source of the call, logged event (function, arguments), the call stands inside a string)
+CALLEES = {
+    "ext": lambda k: (f"ext({k})", ("ext", f"i:{k}"), False),
+    "ext2": lambda k: (f"ext2({k}, {k + 1})", ("ext2", f"i:{k},i:{k + 1}"), False),
+    "ext0": lambda k: ("ext0()", ("ext0", ""), False),
+    "wrap": lambda k: (f"wrap({k})", ("ext", f"i:{k}"), False),
+    "wrap0": lambda k: ("wrap0()", ("ext0", ""), False),
+    "mkstr": lambda k: (f"mkstr({k})", ("ext", f"i:{k}"), True),
+    "mkstr0": lambda k: ("mkstr0()", ("ext0", ""), True),
+}
+CALLEE_W = [("ext", 5), ("ext2", 2), ("ext0", 4), ("wrap", 2), ("wrap0", 1), ("mkstr", 1), ("mkstr0", 1)]
+# use of the result: (inline form, expression form for `~ v = ...`)
+USES = {
+    "print": (lambda e, k: "{" + e + "}", lambda e: e),
+    "operator": (lambda e, k: "{" + e + " + 1}", lambda e: e + " + 1"),
+    "native": (lambda e, k: "{MIN(" + e + ", 1000)}", lambda e: "MIN(" + e + ", 1000)"),
+    "condition": (lambda e, k: "{" + e + f" > 0: yes{k}|no{k}" + "}", lambda e: e + " > 0"),
+}
+USE_W = [("print", 3), ("operator", 3), ("native", 1), ("condition", 2)]
+# inside string literals and choice text the compiler under test does not parse `{c: a|b}` (the text is kept
+# verbatim, nothing is called), so the result is consumed by an operator / native function there
+STRING_USE_W = [("print", 3), ("operator", 4), ("native", 2)]
+
+# position -> (lines(k, inline X, expression E), marker(k), inside string evaluation)
+POSITIONS = {
+    "stmt": (lambda k, x, e: [f"~ v = {e}", f"Got{k} {{v}}."], "Got", False),
+    "inline": (lambda k, x, e: [f"Inline{k} {x} here."], "Inline", False),
+    "inline-after-text": (lambda k, x, e: [f"Before{k}.", f"Then{k} {x}."], "Then", False),
+    "glue": (lambda k, x, e: [f"Glued{k} <>", f"{x} on."], "Glued", False),
+    "logic-then-text": (lambda k, x, e: [f"A line{k}.", f"~ v = {e}", f"After{k} {{v}}."], "After", False),
+    "in-tunnel": (lambda k, x, e: [f"-> tun{k} ->", f"Back{k}."], "Tunnel", False),
+    "string": (lambda k, x, e: [f'~ s = "a{x}b"', f"Str{k} {{s}}."], "Str", True),
+    "string-after-text": (lambda k, x, e: [f"Pre{k}.", f'~ s = "a{x}b"', f"Str{k} {{s}}."], "Str", True),
+    "string-temp": (lambda k, x, e: [f"Lead{k}.", f'~ temp t{k} = "{x}"', f"Tmp{k} {{t{k}}}."], "Tmp", True),
+    "string-inline": (lambda k, x, e: [f'Lit{k} {{"q{x}"}} end.'], "Lit", True),
+}
+PLAIN_POS = ["stmt", "inline", "inline-after-text", "glue", "logic-then-text", "in-tunnel"]
+STRING_POS = ["string", "string-after-text", "string-temp", "string-inline"]
+
+
+def wchoice(rng, table):
+    tot = sum(w for _, w in table)
+    r = rng.random() * tot
+    for name, w in table:
+        r -= w
+        if r < 0:
+            return name
+    return table[-1][0]
+
+
+def mk_site(k, pos, use, callee, block="root"):
+    src, ev, in_str = CALLEES[callee](k)
+    if in_str:
+        use = "print"          # the value is a string: the operator on the result is inside the function
+    inline, expr = USES[use]
+    if pos in POSITIONS:
+        mk, marker, pos_str = POSITIONS[pos]
+        lines = mk(k, inline(src, k), expr(src))
+    else:
+        lines, marker, pos_str = None, {"choice-text": None, "choice-start": None, "after-choice": "AfterChoice"}[pos], \
+            pos in ("choice-text", "choice-start")
+    site = dict(k=k, pos=pos, use=use, callee=callee, block=block, string=bool(in_str or pos_str),
+                marker=(f"{marker}{k}" if marker else None), event=list(ev), x=inline(src, k))
+    return site, lines
 
 
 def gen_program(rng, with_string=False):
     n = rng.randint(2, 5)
     body, tunnels, sites = [], [], []
     k = 10
-    for _ in range(n):
-        name, mk = rng.choice(SNIPPETS)
-        body.append(mk(k))
-        if name == "in-tunnel":
-            tunnels.append(f"=== tun{k} ===\nTunnel {{ext({k})}}.\n->->")
-        sites.append((k, name))
-        k += 10
-    choice_k = k
-    lines = ["EXTERNAL ext(a)", "EXTERNAL ext2(a, b)", "VAR v = 0", 'VAR s = ""']
-    lines += body
+    plan = [rng.choice(PLAIN_POS) for _ in range(n)]
+    choice_form = "plain"
     if with_string:
-        lines.append(f'~ s = "a{{ext({k})}}b"')
-        lines.append("Str {s}.")
-        sites.append((k, "string")); k += 10
-        lines.append(f"* [go {{ext({k})}}] Went.")
-        sites.append((k, "choice-text")); k += 10
-    else:
+        shape = wchoice(rng, [("body", 45), ("choice", 35), ("both", 20)])
+        if shape in ("body", "both"):
+            plan.insert(rng.randint(0, len(plan)), rng.choice(STRING_POS))
+        if shape in ("choice", "both"):
+            choice_form = rng.choice(["choice-text", "choice-start"])
+    for pos in plan:
+        site, lines = mk_site(k, pos, wchoice(rng, STRING_USE_W if pos in STRING_POS else USE_W), wchoice(rng, CALLEE_W))
+        body += lines
+        if pos == "in-tunnel":
+            tunnels.append(f"=== tun{k} ===\nTunnel{k} {site['x']}.\n->->")
+        sites.append(site)
+        k += 10
+    lines = HEADER + body
+    if choice_form == "plain":
         lines.append("* [go] Went.")
-    lines.append(f"  After choice {{ext({k})}}.")
-    sites.append((k, "after-choice"))
+    else:
+        site, _ = mk_site(k, choice_form, wchoice(rng, STRING_USE_W), wchoice(rng, CALLEE_W))
+        lines.append(f"* [go {site['x']}] Went." if choice_form == "choice-text" else f"* Go {site['x']}[] went.")
+        sites.append(site); k += 10
+    site, _ = mk_site(k, "after-choice", wchoice(rng, USE_W), wchoice(rng, CALLEE_W), block="choice0")
+    lines.append(f"  AfterChoice{k} {site['x']}.")
+    sites.append(site)
     lines.append("  -> END")
     lines.append("* [stay] -> END")
     lines += tunnels
-    lines += ["=== function wrap(a) ===", "~ return ext(a) + 1",
-              "=== function ext(a) ===", "~ return a",
-              "=== function ext2(a, b) ===", "~ return a"]
+    lines += FOOTER
     return "\n".join(lines) + "\n", sites
+
+
+def fixed_program(body_sites, choice=None):
+    """regression corpus entry from explicit (pos, use, callee) triples"""
+    body, sites, k = [], [], 10
+    for pos, use, callee in body_sites:
+        site, lines = mk_site(k, pos, use, callee)
+        body += lines; sites.append(site); k += 10
+    lines = HEADER + body
+    if choice:
+        form, use, callee = choice
+        site, _ = mk_site(k, form, use, callee)
+        lines.append(f"* [go {site['x']}] Went." if form == "choice-text" else f"* Go {site['x']}[] went.")
+        sites.append(site); k += 10
+    else:
+        lines.append("* [go] Went.")
+    site, _ = mk_site(k, "after-choice", "print", "ext", block="choice0")
+    lines += [f"  AfterChoice{k} {site['x']}.", "  -> END", "* [stay] -> END"] + FOOTER
+    sites.append(site)
+    return "\n".join(lines) + "\n", sites
+
+
+# regression corpus (run on every tier in addition to the generated programs)
+REGRESSION = [
+    # seeded C12: unsafe zero-argument external, result consumed inside a string, a line pending
+    ([("string-temp", "operator", "ext0")], None),
+    ([("inline", "print", "ext")], ("choice-start", "operator", "ext0")),
+    ([("string-after-text", "native", "ext0")], None),
+    ([("inline", "print", "ext0"), ("inline", "print", "mkstr0")], ("choice-text", "operator", "wrap0")),
+    ([("string", "print", "ext2"), ("stmt", "print", "ext")], None),
+]
 
 
 def events(line):
@@ -70,11 +181,14 @@ def events(line):
     return [e for e in m.group(1).split(";") if e] if m and m.group(1) else []
 
 
+EV_RE = re.compile(r"x\(([^,]*),\[(.*)\],(\d+)\)$")
+
+
 def xcalls(lines):
     out = []
     for i, l in enumerate(lines):
         for e in events(l):
-            m = re.match(r"x\(([^,]*),\[(.*)\],(\d+)\)$", e)
+            m = EV_RE.match(e)
             if m:
                 out.append(dict(name=m.group(1), args=m.group(2), lines=int(m.group(3)), at=i))
     return out
@@ -84,41 +198,184 @@ def strip_ev(l):
     return re.sub(r" ev=\[.*\]$", "", l)
 
 
+def path_blocks(lines):
+    """{'[]': [CONT/END lines], '[0]': ...} of an explored run; dead paths map to None"""
+    blocks, cur = {}, None
+    for l in lines:
+        m = re.match(r"PATH (\[[0-9, ]*\]):(.*)$", l)
+        if m:
+            cur = m.group(1).replace(" ", "")
+            blocks[cur] = [] if not m.group(2).strip() else None
+        elif cur is not None and blocks.get(cur) is not None and l.startswith("  "):
+            blocks[cur].append(l)
+    return blocks
+
+
+def conts(block):
+    return [l for l in (block or []) if l.startswith("  CONT => ")]
+
+
+def res_of(l):
+    return hist.split_line(l)[1]
+
+
+BLOCK_OF = {"root": "[]", "choice0": "[0]"}
+
+
+def check_unsafe(m, case, fb_blocks, blocks, fails):
+    """the bound-as-unsafe run against the reference (ink fallback) run, block by block:
+    every call outside a string happens exactly once, in program order, during the continue that
+    delivers its own line (never earlier); the first call inside a string is refused with an error
+    on the continue that would deliver its line, after every earlier line has been delivered
+    unchanged, and nothing inside a string is ever called"""
+    refused = False
+    for bname in ("root", "choice0"):
+        key = BLOCK_OF[bname]
+        F, U = conts(fb_blocks.get(key)), conts(blocks.get(key))
+        sites = [s for s in m["sites"] if s["block"] == bname]
+        if refused or fb_blocks.get(key) is None:
+            if U and refused:
+                fails.append(dict(key="story-continues-after-refusal", case=case, path=key))
+            return
+        offset = 0 if bname == "root" else len(conts(blocks.get("[]")))
+        first_str = next((i for i, s in enumerate(sites) if s["string"]), None)
+        live = sites if first_str is None else sites[:first_str]
+        # index of the reference line that shows each site
+        def line_of(s):
+            if s["marker"] is None:
+                return len(F)                     # choice text: generated after the last line
+            return next((i for i, l in enumerate(F) if s["marker"] in res_of(l)), None)
+        got = [(ci, EV_RE.match(e)) for ci, l in enumerate(U) for e in events(l)]
+        got = [(ci, g.group(1), g.group(2), int(g.group(3))) for ci, g in got if g]
+        want = [(line_of(s), s["event"][0], s["event"][1]) for s in live]
+        if [(n_, a) for _, n_, a, _ in got] != [(n_, a) for _, n_, a in want]:
+            cnt = {}
+            for _, n_, a, _ in got:
+                cnt[(n_, a)] = cnt.get((n_, a), 0) + 1
+            str_evs = [tuple(s["event"]) for s in sites if s["string"]]
+            live_evs = [tuple(s["event"]) for s in live]
+            if any(e in cnt and e not in live_evs for e in str_evs):
+                kk = "unsafe-function-called-in-string"
+            elif any(c > live_evs.count(e) for e, c in cnt.items()):
+                kk = "unsafe-function-called-more-than-once"
+            elif ("ext2", ) in [(n_,) for _, n_, a, _ in got] and any(
+                    n_ == "ext2" and (n_, a) not in live_evs for _, n_, a, _ in got):
+                kk = "arguments-out-of-order"
+            else:
+                kk = "unsafe-call-sequence-differs-from-program-order"
+            fails.append(dict(key=kk, case=case, path=key, calls=[list(g) for g in got], expected=[list(w) for w in want]))
+            return
+        for (ci, n_, a, nl), (li, _, _) in zip(got, want):
+            if li is not None and (ci != li or nl != offset + ci):
+                fails.append(dict(key="unsafe-function-ran-before-its-line" if ci < li or nl < offset + ci
+                                  else "unsafe-function-ran-after-its-line", case=case, path=key,
+                                  call=[n_, a, nl], in_continue=ci, line_of_site=li, lines_before_path=offset))
+                return
+        if first_str is None:
+            a = [strip_ev(l) for l in fb_blocks.get(key)]
+            b = [strip_ev(l) for l in blocks.get(key) or []]
+            if a != b:
+                d = next((i for i, (x, y) in enumerate(zip(a, b)) if x != y), min(len(a), len(b)))
+                fails.append(dict(key="output-differs-from-single-call-semantics:unsafe", case=case, path=key,
+                                  fallback=a[d] if d < len(a) else None, bound=b[d] if d < len(b) else None))
+                return
+            continue
+        # refusal
+        refused = True
+        j = line_of(sites[first_str])
+        if j is None:
+            continue
+        pre_f, pre_u = [res_of(l) for l in F[:j]], [res_of(l) for l in U[:j]]
+        if pre_u != pre_f:
+            fails.append(dict(key="lines-before-refused-call-not-delivered", case=case, path=key,
+                              fallback=pre_f, bound=[res_of(l) for l in U]))
+            return
+        if len(U) != j + 1 or not res_of(U[j]).startswith("err("):
+            fails.append(dict(key="unsafe-function-in-string-not-refused-on-its-line", case=case, path=key,
+                              expected_error_at=j, bound=[res_of(l) for l in U]))
+            return
+        if " can=0 " not in (" " + hist.split_line(U[j])[2] + " ") or "nerr=1" not in U[j]:
+            fails.append(dict(key="refusal-does-not-end-the-story", case=case, path=key, line=U[j]))
+            return
+
+
+def check_safe(m, case, fb_blocks, blocks, lines, fails):
+    """bound as look-ahead safe: the story reads exactly as the ink-fallback run (as if the function
+    ran once where it stands), every executed site is called at least once with its arguments"""
+    for key, fb in fb_blocks.items():
+        a = [strip_ev(l) for l in (fb or [])]
+        b = [strip_ev(l) for l in (blocks.get(key) or [])]
+        if a != b:
+            d = next((i for i, (x, y) in enumerate(zip(a, b)) if x != y), min(len(a), len(b)))
+            kk = "output-differs-from-single-call-semantics:safe"
+            if any(res_of(l).startswith("err(") for l in conts(blocks.get(key))) and any(s["string"] for s in m["sites"]):
+                kk = "safe-function-refused-in-string"
+            fails.append(dict(key=kk, case=case, path=key,
+                              fallback=a[d] if d < len(a) else None, bound=b[d] if d < len(b) else None))
+            return
+    seen = {(c["name"], c["args"]) for c in xcalls(lines)}
+    known = {tuple(s["event"]) for s in m["sites"]}
+    for s in m["sites"]:
+        if fb_blocks.get(BLOCK_OF[s["block"]]) is not None and tuple(s["event"]) not in seen:
+            fails.append(dict(key="bound-function-not-called", case=case, site=s)); return
+    bad = [e for e in seen if e not in known]
+    if bad:
+        fails.append(dict(key="arguments-out-of-order" if any(n_ == "ext2" for n_, _ in bad) else "unexpected-call",
+                          case=case, calls=[list(e) for e in bad]))
+
+
+MODES = ("fallback", "safe", "unsafe", "unbound")
+
+
+def setup_script(mode):
+    if mode == "fallback":
+        return [["FALLBACKS", True]]
+    if mode in ("safe", "unsafe"):
+        sf = mode == "safe"
+        return [["BIND", "ext", sf, "echo"], ["BIND", "ext2", sf, "echo"], ["BIND", "ext0", sf, {"i": EXT0_VALUE}]]
+    return []
+
+
 def run(ctx):
     exe = vlib.build_harness()
     sw = engine.current_switches()
     ctx.coverage["generated_tables"] = sw
     pr = ctx.proof("theories/Props/C12.v")
-    nprog = 12 if ctx.quick() else 120
+    nprog = 40 if ctx.quick() else 400
     cases, meta = [], {}
-    kinds_hist = {}
+    kinds_hist, combo = {}, set()
+    progs = []
     for n in range(nprog):
-        with_string = ctx.rng.random() < 0.4
+        with_string = ctx.rng.random() < 0.5
         src, sites = gen_program(ctx.rng, with_string)
-        for _, kind in sites:
-            kinds_hist[kind] = kinds_hist.get(kind, 0) + 1
-        for mode in ("fallback", "safe", "unsafe", "unbound"):
-            st = []
-            if mode == "fallback":
-                st = [["FALLBACKS", True]]
-            elif mode in ("safe", "unsafe"):
-                st = [["BIND", "ext", mode == "safe", "echo"], ["BIND", "ext2", mode == "safe", "echo"]]
-            cid = f"p{n}|{mode}"
-            cases.append(dict(id=cid, ink=src, seed=42, fuel=30000, script=st + [["HANDLER"]] * 0,
+        progs.append((src, sites, with_string, f"p{n}"))
+    progs += [fixed_program(b, c) + (True, f"r{i}") for i, (b, c) in enumerate(REGRESSION)]
+    for src, sites, with_string, pid in progs:
+        for s in sites:
+            kinds_hist[s["pos"]] = kinds_hist.get(s["pos"], 0) + 1
+            combo.add((s["pos"], s["use"], s["callee"]))
+        for mode in MODES:
+            cid = f"{pid}|{mode}"
+            cases.append(dict(id=cid, ink=src, seed=42, fuel=30000, script=setup_script(mode),
                               explore=dict(depth=2, max_paths=8)))
-            meta[cid] = dict(n=n, mode=mode, sites=sites, with_string=with_string, src=src)
+            meta[cid] = dict(n=pid, mode=mode, sites=sites, with_string=with_string, src=src)
     res = {r["id"]: r for r in vlib.run_inkdrive(cases, exe)}
-    fails, n_checked, n_calls = [], 0, 0
+    by_id = {c["id"]: c for c in cases}
+    fails, n_checked, n_calls, n_refusals, n_compile_fail = [], 0, 0, 0, 0
     for cid, m in meta.items():
         r = res.get(cid)
+        case = by_id[cid]
+        if r and r.get("crash") is not None:
+            fails.append(dict(key=f"panic:{m['mode']}", case=case, crash=r.get("crash"))); continue
+        if r and r.get("compile") != "ok":
+            n_compile_fail += m["mode"] == "fallback"
         if not r or r.get("out_of_fuel") or r.get("compile") != "ok":
             continue
-        case = next(c for c in cases if c["id"] == cid)
-        if r.get("crash") is not None or any("panic" in hist.split_line(l)[1] for l in r["lines"] if " => " in l):
-            fails.append(dict(key=f"panic:{m['mode']}", case=case)); continue
-        n_checked += 1
-        ref = res.get(f"p{m['n']}|fallback")
         lines = r["lines"]
+        if any("panic" in res_of(l) or "poisoned" in res_of(l) for l in lines if " => " in l):
+            bad = next(l for l in lines if " => " in l and ("panic" in res_of(l) or "poisoned" in res_of(l)))
+            fails.append(dict(key=f"panic:{m['mode']}", case=case, line=bad.strip())); continue
+        n_checked += 1
         if m["mode"] == "unbound":
             # the first continue must fail with an error (never a panic), nothing is called
             first = next((l for l in lines if l.startswith("  CONT => ")), "")
@@ -127,84 +384,44 @@ def run(ctx):
             continue
         if m["mode"] == "fallback":
             continue
-        calls = xcalls(lines)
-        n_calls += len(calls)
-        # story output as if the function ran once per call: identical to the ink-fallback run
-        # (except where a call stands inside a string / choice text, handled below)
-        if ref and not m["with_string"]:
-            a = [strip_ev(l) for l in ref["lines"] if l.startswith("  ") or l.startswith("PATH")]
-            b = [strip_ev(l) for l in lines if l.startswith("  ") or l.startswith("PATH")]
-            if a != b:
-                d = next((i for i, (x, y) in enumerate(zip(a, b)) if x != y), min(len(a), len(b)))
-                fails.append(dict(key=f"output-differs-from-single-call-semantics:{m['mode']}", case=case,
-                                  fallback=a[d] if d < len(a) else None, bound=b[d] if d < len(b) else None))
-                continue
-        # per path block: arguments in order / timing
-        block, blocks = [], []
-        for l in lines:
-            if l.startswith("PATH "):
-                if block:
-                    blocks.append(block)
-                block = [l]
-            elif block:
-                block.append(l)
-        if block:
-            blocks.append(block)
-        for blk in blocks:
-            conts = [l for l in blk if l.startswith("  CONT => ")]
-            for ci, l in enumerate(conts):
-                for e in events(l):
-                    mm = re.match(r"x\(([^,]*),\[(.*)\],(\d+)\)$", e)
-                    if not mm:
-                        continue
-                    name, args, nlines = mm.group(1), mm.group(2), int(mm.group(3))
-                    ks = re.findall(r"i:(-?\d+)", args)
-                    if name == "ext2" and (len(ks) != 2 or int(ks[1]) != int(ks[0]) + 1):
-                        fails.append(dict(key="arguments-out-of-order", case=case, event=e)); break
-                    if m["mode"] == "unsafe":
-                        # an unsafe function runs during the continue that delivers its own line:
-                        # its echoed argument must appear in THIS line's text (never a later one)
-                        k = ks[0] if ks else None
-                        kind = next((kd for kk, kd in m["sites"] if str(kk) == k), None)
-                        txt = hist.split_line(l)[1]
-                        if kind in ("inline", "inline-after-text", "glue", "in-tunnel", "after-choice") and k and k not in txt:
-                            fails.append(dict(key="unsafe-function-ran-before-its-line", case=case, event=e, line=l))
-                            break
-            if m["mode"] == "unsafe":
-                # exactly once per executed call: no argument value is seen twice within one path
-                seen = {}
-                for l in conts:
-                    for e in events(l):
-                        mm = re.match(r"x\((ext2?),\[(.*)\],(\d+)\)$", e)
-                        if mm:
-                            seen[mm.group(2)] = seen.get(mm.group(2), 0) + 1
-                dup = {a: c for a, c in seen.items() if c > 1}
-                if dup:
-                    fails.append(dict(key="unsafe-function-called-more-than-once", case=case, calls=dup, path=blk[0]))
-        if m["with_string"]:
-            # inside strings / choice text: safe functions may be called, unsafe ones are refused with an error
-            alltxt = "\n".join(lines)
-            string_k = [kk for kk, kd in m["sites"] if kd in ("string", "choice-text")]
-            called = {int(x) for c in calls for x in re.findall(r"i:(-?\d+)", c["args"])}
-            if m["mode"] == "safe" and string_k and not (set(string_k) & called) and "err(" in alltxt:
-                fails.append(dict(key="safe-function-refused-in-string", case=case))
-            if m["mode"] == "unsafe" and (set(string_k) & called):
-                fails.append(dict(key="unsafe-function-called-in-string", case=case, called=sorted(set(string_k) & called)))
-    sample = list(cases)
-    ctx.rng.shuffle(sample)
-    sample = sample[: (40 if ctx.quick() else 400)]
+        ref = res.get(f"{m['n']}|fallback")
+        if not ref or ref.get("compile") != "ok" or ref.get("out_of_fuel") or ref.get("crash") is not None:
+            continue
+        n_calls += len(xcalls(lines))
+        fb_blocks, blocks = path_blocks(ref["lines"]), path_blocks(lines)
+        if m["mode"] == "safe":
+            check_safe(m, case, fb_blocks, blocks, lines, fails)
+        else:
+            check_unsafe(m, case, fb_blocks, blocks, fails)
+            n_refusals += any(res_of(l).startswith("err(") for b_ in blocks.values() for l in conts(b_))
+    # correspondence with the engine model: every unsafe / safe run of a program with a call inside a
+    # string first (the model refuses before it looks at the snapshot), then a random sample
+    budget = 60 if ctx.quick() else 600
+    prio = [c for c in cases if meta[c["id"]]["mode"] in ("unsafe", "safe")
+            and any(s["string"] for s in meta[c["id"]]["sites"])]
+    ctx.rng.shuffle(prio)
+    prio.sort(key=lambda c: meta[c["id"]]["mode"] != "unsafe")
+    prio = prio[: budget * 2 // 3]
+    chosen = {c["id"] for c in prio}
+    rest = [c for c in cases if c["id"] not in chosen]
+    ctx.rng.shuffle(rest)
+    sample = prio + rest[: budget - len(prio)]
     mcases = [dict(c, id="m:" + c["id"]) for c in sample]
     cres = engine.compare(mcases, exe, sw)
-    mism = [r for r in cres if r["status"] in ("mismatch", "model-error")]
+    mism = [r for r in cres if r["status"] in ("mismatch", "model-error", "impl-crash")]
     agree = sum(1 for r in cres if r["status"] == "agree")
     ctx.coverage.update(dict(
         evaluations=len(cases), distinct_nontrivial=n_checked,
-        rule="generated programs with uniquely numbered external calls (statement, inline, after a line end, in a "
-             "condition, after glue, two arguments, inside a function, inside a tunnel, after a choice, inside a string, "
-             "inside choice text) x {ink fallback, bound safe, bound unsafe, unbound}, explored to depth 2",
-        external_calls_logged=n_calls, call_site_kinds=kinds_hist,
-        samples=[cases[0]["ink"] if cases else ""],
-        traces_validated_against_impl=agree, correspondence_mismatches=len(mism), programs=nprog))
+        rule="generated programs, every external call = callee (arity 0/1/2, direct, through an ink function, through "
+             "an ink function building a string) x use of the result (printed, operator, native function, condition) x "
+             "position (statement, inline, after a line end, after glue, in a tunnel, string expression into global / "
+             "temp / inline literal with and without a pending line, bracketed and start-content choice text, after a "
+             "choice) x {ink fallback, bound safe, bound unsafe, unbound}, explored to depth 2; unsafe runs are compared "
+             "call by call (order, exactly once, line of delivery) and line by line with the fallback run",
+        external_calls_logged=n_calls, call_site_kinds=kinds_hist, distinct_site_combinations=len(combo),
+        unsafe_refusals_in_string=n_refusals, programs_not_compiling=n_compile_fail,
+        samples=[cases[0]["ink"] if cases else "", cases[-1]["ink"] if cases else ""],
+        traces_validated_against_impl=agree, correspondence_mismatches=len(mism), programs=len(progs)))
     seen = set()
     for f in fails:
         if f["key"] in seen:
